@@ -75,6 +75,7 @@ def run(ctx):
     tot = 0
     ksites = 0
     kernels = set()
+    pjobs = []
     for pty in PTYS:
         cells = cuts_to_cells(pty.bits, [0, pty.nar, pty.one])
         # merge: keep {0},{NaR},{ONE},{-ONE}, one positive interval, one negative interval, maxpos
@@ -92,15 +93,9 @@ def run(ctx):
                            [keep, keep, keep], tspec(pty, f), pty.bits, max_product=20000)
             tot += decided(st)
             import probes
-            n0 = len(ctx.findings)
-            for (a, b, c) in probes.ternary_probes(pty, 2 if ctx.tier == 'thorough' else 1):
-                cellsets = [[(a, a)], [(b, b)], [(c, c)]]
-                st = run_cells(ctx, prog, 'GCR', '%s::%s' % (pty.name, name), path,
-                               lambda cell, pty=pty: [posit_arg(pty, c_[0], c_[1], i) for i, c_ in enumerate(cell)],
-                               cellsets, tspec(pty, f), pty.bits)
-                ctx.count('probe_cells', 1)
-                if len(ctx.findings) - n0 > 40:
-                    break
+            from props.common import run_points
+            tp_ = probes.ternary_probes(pty, 2 if ctx.tier == 'thorough' else 1)
+            pjobs.append(dict(rule='GCR', label='%s::%s' % (pty.name, name), path=path, pty=pty, points=tp_, spec=tspec(pty, f)))
             # fused rounding matrix: kept bits from the addend, round bit and a deep sticky bit from the exact product, with / without carry
             from props.common import run_points
             pts = probes.fma_probes(pty, 2 if ctx.tier == 'thorough' else 1)
@@ -110,13 +105,15 @@ def run(ctx):
                 pts = [(a, b, (-c) & mask(pty.bits)) for a, b, c in pts[::2]]
             elif name == 'sub_product':
                 pts = [(c, (-a) & mask(pty.bits), b) for a, b, c in pts[1::2]]
-            run_points(ctx, prog, 'GCR', '%s::%s' % (pty.name, name), path, pty, pts, tspec(pty, f))
+            pjobs.append(dict(rule='GCR', label='%s::%s' % (pty.name, name), path=path, pty=pty, points=pts, spec=tspec(pty, f)))
             k = find_kernel(prog, path)
             if k is None:
                 ctx.notes.append('%s::%s: no callee with an operation-selector parameter (the three operations do not share a kernel): R5 has no instance there' % (pty.name, name))
             elif k not in kernels:
                 kernels.add(k)
                 ksites += selector_rule(ctx, prog, k, pty.name + '::mul_add-kernel')
+    from props.common import run_points_parallel
+    run_points_parallel(ctx, prog, pjobs)
     # R10 with one symbolic operand: one factor the constant 2^t, the other *every* posit of a regime cell, the addend a constant placed so that the
     # exact result is a routing of the symbolic operand's bits; then the rounding cases.  Proves alignment of product and addend, sticky collection
     # (incl. product bits deeper than the target precision when t != 0), rounding, carry-out and the borrow correction on those families.
@@ -139,6 +136,22 @@ def run(ctx):
                 for t_ in ts:
                     for i in range(0, len(allsc), chunk):
                         tasks.append((rules_rounding.check_fma, ('R10', '%s::%s' % (pty.name, fname), path, pty, fname, v, False), dict(scales=allsc[i:i + chunk], t=t_)))
+    # the same with a two-bit constant factor 2^t (1 + 2^-d): the product then has set bits at the top and d places further down
+    for pty in PTYS:
+        if pty.bits == 32 and ctx.tier == 'quick':
+            continue
+        maxs = (pty.bits - 2) << pty.es
+        fb0 = pty.bits - 3 - pty.es
+        allsc = list(range(-maxs, maxs))[::(1 if pty.bits == 8 else 3 if pty.bits == 16 else 16)]
+        for fname in FUNCS:
+            path = prog.inherent(pty.tykey, fname)
+            if not path:
+                continue
+            chunk = 6 if pty.bits > 8 else len(allsc)
+            for v in range(len(rules_rounding.FMA_VARIANTS[fname])):
+                for fd_ in (fb0, max(2, fb0 // 2)):
+                    for i in range(0, len(allsc), chunk):
+                        tasks.append((rules_rounding.check_fma, ('R10', '%s::%s' % (pty.name, fname), path, pty, fname, v, False), dict(scales=allsc[i:i + chunk], t=0, fd=fd_)))
     st = rules_rounding.run_parallel(ctx, prog, tasks)
     ctx.count('one_symbolic_operand_cells', st['cells'])
     ctx.count('one_symbolic_operand_cells_proved', st['proved'])
